@@ -296,6 +296,18 @@ def prep_neg(c):
 # ---------------------------------------------------------------- run
 
 def run(ctx):
+    if ctx.replay:
+        # every case is a deterministic function of (seed, tier): a replay re-runs the
+        # recorded seed/tier on the CURRENT tree; the recorded violation reappears iff
+        # the tree still has it.
+        import json as _json
+        rec = _json.load(open(ctx.replay))
+        ctx.seed = int(rec.get("seed", ctx.seed))
+        ctx.tier = rec.get("tier", ctx.tier)
+        os.environ["VERIF_SEED"] = str(ctx.seed)
+        os.environ["VERIF_TIER"] = ctx.tier
+        ctx.note("replaying %s: seed=%d tier=%s kind=%s name=%s" % (
+            ctx.replay, ctx.seed, ctx.tier, rec.get("kind"), rec.get("name")))
     pr = ctx.proof_stage(MODULE, THEOREMS, TARGETS, extra_trusted=[
         "C17_signatures_verify: Section hypothesis verify (pub k) m (sign k m) = true "
         "(functional correctness of the signature scheme; stated in the theorem)",
@@ -305,17 +317,21 @@ def run(ctx):
         "model of ReceiveClosingSigned abstracts the channel as 'CreateCloseProposal succeeds iff "
         "fee <= opener balance + credit' (n_afford); tied by the two-real-ChanClosers harness",
     ])
-    env = {}
-    rc1, trace1, out1 = run_harness(ctx.uid("w"), "lnwallet", [H_WALLET], "^TestVerifCoop$",
-                                    env=env, timeout=1500 if not ctx.thorough else 3000)
+    # the two harness packages are built and run concurrently
+    from concurrent.futures import ThreadPoolExecutor
+    tmo = 1500 if not ctx.thorough else 5000
+    with ThreadPoolExecutor(max_workers=2) as ex:
+        f1 = ex.submit(run_harness, ctx.uid("w"), "lnwallet", [H_WALLET], "^TestVerifCoop$",
+                       None, tmo)
+        f2 = ex.submit(run_harness, ctx.uid("n"), "lnwallet/chancloser", [H_CLOSER],
+                       "^TestVerifNegotiate$", None, tmo)
+        rc1, trace1, out1 = f1.result()
+        rc2, trace2, out2 = f2.result()
     rows = read_jsonl(trace1)
     if rc1 != 0 or not rows:
         ctx.violation("harness_failed", "TestVerifCoop", {"log": out1[-4000:]},
                       signature="harness", failing_input=False)
         return
-    rc2, trace2, out2 = run_harness(ctx.uid("n"), "lnwallet/chancloser", [H_CLOSER],
-                                    "^TestVerifNegotiate$", env=env,
-                                    timeout=1500 if not ctx.thorough else 3000)
     rows2 = read_jsonl(trace2)
     if rc2 != 0 or not rows2:
         ctx.violation("harness_failed", "TestVerifNegotiate", {"log": out2[-4000:]},
